@@ -4,7 +4,8 @@
   Mirrors, in the code's order:
     * `mappers.py`: `_set_base_mapper_no_op` (`baseFields`), `_apply_mapper` (`applyKey`),
       `add_mapper_to_aggregation` (`add` / `addVal` / `addKey`), `aggregate_serialization_mappers` /
-      `aggregate_deserialization_mappers` (`aggregate`), the MRO collection
+      `aggregate_deserialization_mappers` (`aggregate`), the process-wide cache
+      `aggregated_mapper_by_class` (`cachedAggregate`), the MRO collection
       `_get_all_values_of_attribute` incl. attribute inheritance by `getattr` (`collect`);
     * `serialization.py`: `serialize_internal` (`ser`: mapped_key / sub_mapper / DoNotSerialize),
       `construct_fields_map` + `get_processed_input` + `deep_get` (`deser`, `procInput`, `deepGet`);
@@ -252,6 +253,22 @@ def effList (own : List Mapper) (ov : Option MDict) (camel : Bool) : List Mapper
 def aggregate (S : StrFns) (forSer : Bool) (own : List Mapper) (fields : List Fld)
     (ov : Option MDict) (camel : Bool) : MDict :=
   foldAdd S forSer (effList own ov camel) (baseFields S forSer fields)
+
+/-! ### the process-wide cache `aggregated_mapper_by_class` -/
+
+/-- cache key: (class, `json.dumps(override)` or `""`, `camel_case_convert`) -/
+abbrev CacheKey := String × String × Bool
+abbrev Cache := List (CacheKey × MDict)
+
+/-- `aggregate_serialization_mappers` as called: a cached result for the key is returned as is,
+    otherwise the aggregate is computed and stored -/
+def cachedAggregate (S : StrFns) (cache : Cache) (cid ovKey : String) (own : List Mapper)
+    (fields : List Fld) (ov : Option MDict) (camel : Bool) : MDict × Cache :=
+  match lookupR (cid, ovKey, camel) cache with
+  | some m => (m, cache)
+  | none =>
+    (aggregate S true own fields ov camel,
+     cache ++ [((cid, ovKey, camel), aggregate S true own fields ov camel)])
 
 /-- one class's `_serialization_mapper` attribute -/
 inductive ClassAttr where
